@@ -2,7 +2,14 @@
    case:  <id> {c <lit>...} {d <lit> | p}        lit = signed 1-based label, as in DIMACS
    out:   <id> NONE                              (SATSolver::new returned None)
         | <id> <state> {<res> <state>}           res = SAT | UNSAT | UNK | PANIC | POP
-   state = [<T|F|- per variable>;<difference_iter, sorted>;<is_sat 0|1>;<cur_hash>] *)
+   state = [<T|F|- per variable>;<difference_iter, sorted>;<is_sat 0|1>;<cur_hash>]
+   LARGE family (272-480 variables), case kind `u`:  <id> u {c ...} {d <lit> | p}
+   only the unit-propagation layer of the model is run ([cnf_new], [up_new], [up_decide] with
+   [up_fuel], [pm_difference] -- exactly what [sat_new]/[sat_decide]/[sat_pop]/[sat_difference_iter]
+   do with them, minus the residual hash and the satisfied set, whose model costs
+   O(assigned literals x clauses^2)):
+   out:   <id> U NONE | <id> U <state'> {<res'> <state'>}   state' = [<model>;<difference_iter>]
+          res' = OK (SAT or UNK) | UNSAT | PANIC | POP *)
 let lit_of_tok (t : string) : (nat * bool) =
   let i = int_of_string t in
   if i > 0 then (nat_of_int (i - 1), true) else (nat_of_int (- i - 1), false)
@@ -23,10 +30,59 @@ let state_string (s : solver) : string =
   Printf.sprintf "[%s;%s;%d;%s]" ms (String.concat "," (List.map string_of_int diff))
     (if sat_is_sat s then 1 else 0) (string_of_n (sat_cur_hash s))
 
+let diff_string (d : (nat * bool) list) : string =
+  let diff = List.map (fun (v, b) -> let i = int_of_nat v + 1 in if b then i else - i) d in
+  let diff = List.sort (fun a b -> compare (abs a, a) (abs b, b)) diff in
+  String.concat "," (List.map string_of_int diff)
+
+(* unit-propagation layer only: the stack of partial models is kept here as sat_new / sat_decide /
+   sat_pop keep it (new: [state; empty]; decide: push on success, nothing on UNSAT; watches persist) *)
+let light_state nv (stack : pmodel list) : string =
+  let m = List.hd stack in
+  (* the partial model is a list of option bool of length nvars (pm_new / pm_set keep the length);
+     read it in one pass instead of nvars calls of pm_get *)
+  if List.length m <> nv then failwith "model length";
+  let ms = String.concat "" (List.map (function
+    | Some true -> "T" | Some false -> "F" | None -> "-") m) in
+  let d = match stack with t :: t2 :: _ -> pm_difference t t2 | _ -> [] in
+  Printf.sprintf "[%s;%s]" ms (diff_string d)
+
+let run_light id raw ops =
+  let buf = Buffer.create 4096 in
+  Buffer.add_string buf id; Buffer.add_string buf " U";
+  let cls = cnf_new raw in
+  let nvars = cnf_num_vars cls in
+  let nv = int_of_nat nvars in
+  let fuel = up_fuel nvars cls in
+  (match up_new false cls nvars fuel with
+   | UOutOfFuel -> Buffer.add_string buf " OUT_OF_FUEL"
+   | URes (_, None) -> Buffer.add_string buf " NONE"
+   | URes (w0, Some state) ->
+     let w = ref w0 in
+     let stack = ref [state; pm_new nvars] in
+     Buffer.add_char buf ' '; Buffer.add_string buf (light_state nv !stack);
+     let rec go = function
+       | "d" :: l :: r ->
+         let a = lit_of_tok l in
+         if int_of_nat (fst a) >= nv then Buffer.add_string buf " PANIC "
+         else (match up_decide false cls fuel !w (List.hd !stack) a with
+             | UOutOfFuel -> Buffer.add_string buf " OUT_OF_FUEL "
+             | URes (w', None) -> w := w'; Buffer.add_string buf " UNSAT "
+             | URes (w', Some m') -> w := w'; stack := m' :: !stack; Buffer.add_string buf " OK ");
+         Buffer.add_string buf (light_state nv !stack); go r
+       | "p" :: r ->
+         stack := List.tl !stack;
+         Buffer.add_string buf " POP "; Buffer.add_string buf (light_state nv !stack); go r
+       | [] -> ()
+       | _ -> failwith "bad case" in
+     go ops);
+  print_endline (Buffer.contents buf)
+
 let () =
   List.iter (fun line ->
     match split_ws line with
     | id :: rest ->
+      let light, rest = (match rest with "u" :: r -> (true, r) | r -> (false, r)) in
       (* clauses *)
       let rec clauses acc cur = function
         | "c" :: r -> clauses (match cur with None -> acc | Some c -> List.rev c :: acc) (Some []) r
@@ -36,6 +92,7 @@ let () =
                      | Some c -> clauses acc (Some (lit_of_tok t :: c)) r
                      | None -> failwith "bad case") in
       let (raw, ops) = clauses [] None rest in
+      if light then run_light id raw ops else
       let buf = Buffer.create 256 in
       Buffer.add_string buf id;
       (match solver_of_raw false raw with
